@@ -27,6 +27,7 @@ import JanetModel.Lib.MiscC2
 import JanetModel.Lib.Boot9
 import JanetModel.Lib.Boot10
 import JanetModel.Lib.Boot11
+import JanetModel.Lib.Boot12
 import JanetModel.Lib.FormatC
 open Driver JanetModel.Lib
 
@@ -200,6 +201,20 @@ def varpred (name : String) : Option (Int → List Int → Bool) :=
   | "vasc" => some (fun x row => ((x :: row).zip row).all (fun p => decide (p.1 < p.2)))
   | "vtrue" => some (fun _ _ => true) | _ => none
 
+/-- result-valued variadic predicates for `some` / `all` (nil, false, true and integers as results) -/
+def varval (name : String) : Option (Int → List Int → V) :=
+  match name with
+  | "vsumpos" => some (fun x row => let t := row.foldl (· + ·) x; if t > 0 then .int t else .nil)
+  | "vsum" => some (fun x row => .int (row.foldl (· + ·) x))
+  | "vasc" => some (fun x row => if ((x :: row).zip row).all (fun p => decide (p.1 < p.2)) then .tt else .ff)
+  | "vtrue" => some (fun _ _ => .tt)
+  | "vfz" => some (fun x row => let t := row.foldl (· + ·) x; if t % 3 == 0 then .ff else if t % 3 == 1 then .nil else .int t)
+  | _ => none
+
+/-- janet truthiness -/
+def truthyV : V → Bool
+  | .nil => false | .ff => false | _ => true
+
 /-- `map-n n` (n ≤ 3 extra sequences) or the general branch of map-template, as map-template selects them -/
 def mapTemplate {σ γ : Type} (agg : σ → γ → σ) (g : Int → List Int → γ) (init : σ) (xs : List Int) (rest : List (List Int)) : R σ :=
   if rest.length ≤ 3 then Boot.mapN agg g init xs rest else Boot.mapGen agg g init xs rest
@@ -364,6 +379,18 @@ def callVar (f : String) (args : List V) : Out :=
             let r := (Boot.mapRows agg g #[] xs cols).toList
             withMirror (do let a ← mapTemplate agg g #[] xs cols; pure a.toList) (some r) args (.ok (.seq 1 (r.map V.int)) args)
           | none => .skip)
+       else if f == "some" then
+         (match varval g with
+          | some g =>
+            let r := Boot.someSpec truthyV V.nil g xs cols
+            withMirror (Boot.someOf truthyV V.nil g xs cols) (some r) args (.ok r args)
+          | none => .skip)
+       else if f == "all" then
+         (match varval g with
+          | some g =>
+            let r := Boot.allSpec truthyV V.tt g xs cols
+            withMirror (Boot.allOf truthyV V.tt g xs cols) (some r) args (.ok r args)
+          | none => .skip)
        else
          (match varpred g with
           | some g =>
@@ -375,7 +402,7 @@ def callVar (f : String) (args : List V) : Out :=
   | _ => .skip
 
 def call (f : String) (args : List V) : Out :=
-  if (f == "map" || f == "mapcat" || f == "keep" || f == "count") && isVarCall args then callVar f args else
+  if (f == "map" || f == "mapcat" || f == "keep" || f == "count" || f == "some" || f == "all") && isVarCall args then callVar f args else
   if f == "range" then
     (match args.mapM scaled8 with
      | some [e] => rangeOutWith args 0 e 8
